@@ -34,8 +34,10 @@ pub fn lit(text: &str) -> Option<Decimal> {
     Decimal::from_str_exact(&t).ok()
 }
 
+/// the double nearest to the decimal value (through its text: rust_decimal's own to_f64 can be an ulp off,
+/// which matters next to a pole)
 fn f(d: Decimal) -> f64 {
-    d.to_f64().unwrap_or(f64::NAN)
+    d.to_string().parse::<f64>().unwrap_or(f64::NAN)
 }
 
 /// ln of a positive decimal in double precision, without losing an argument that differs from 1 by less
@@ -287,6 +289,16 @@ pub fn factorial(v: Decimal, q: Q) -> R {
         let x = f(v);
         if x.abs() > 150.0 {
             return RV::Unspec("U3: non-integer factorial beyond |x| <= 150");
+        }
+        // next to a pole (a negative integer) the double-precision oracle is only as good as the conversion of
+        // the argument: when the decimal is not exactly a double there, the relative error of the conversion
+        // (1e-16 |x|) divided by the distance to the pole must stay below the tolerance
+        if v < Decimal::ZERO {
+            let dist = f((v - v.round()).abs());
+            let exact = Decimal::from_f64_retain(x).map(|b| b == v).unwrap_or(false);
+            if !exact && dist < 1e-6 * x.abs().max(1.0) {
+                return RV::Unspec("U3: non-representable argument next to a pole of x!");
+            }
         }
         from_f64(q, crate::ev_f64::gamma(x + 1.0))
     }
